@@ -9,11 +9,13 @@ what = None; only = None
 if "--what" in sys.argv: what = sys.argv[sys.argv.index("--what")+1]
 if "--only" in sys.argv: only = sys.argv[sys.argv.index("--only")+1]
 tier = "thorough" if "--thorough" in sys.argv else "quick"
-out = subprocess.run(["./check", pid, tier], cwd=root, capture_output=True, text=True).stdout
-kf = json.load(open(os.path.join(root, "known_findings.json")))
-have = {(f["property"], f["key"]) for f in kf["findings"]}
 added = 0
-for m in re.finditer(r"VIOLATION property=(\S+) replay=(\S+)", out):
+for _round in range(12):
+  out = subprocess.run(["./check", pid, tier], cwd=root, capture_output=True, text=True).stdout
+  kf = json.load(open(os.path.join(root, "known_findings.json")))
+  have = {(f["property"], f["key"]) for f in kf["findings"]}
+  before = added
+  for m in re.finditer(r"VIOLATION property=(\S+) replay=(\S+)", out):
     rep = json.load(open(m.group(2)))
     key = rep["key"]
     if only and only not in key: continue
@@ -23,6 +25,7 @@ for m in re.finditer(r"VIOLATION property=(\S+) replay=(\S+)", out):
         wit = {k: (v if not isinstance(v, str) or len(v) < 1500 else v[:1500] + "…") for k, v in list(wit.items())[:12]}
     kf["findings"].append({"property": pid, "key": key, "what": (what + ": " if what else "") + rep["msg"][:400], "witness": wit})
     have.add((pid, key)); added += 1
-json.dump(kf, open(os.path.join(root, "known_findings.json"), "w"), indent=1, ensure_ascii=False)
+  json.dump(kf, open(os.path.join(root, "known_findings.json"), "w"), indent=1, ensure_ascii=False)
+  if added == before: break
 print(out[-600:])
 print("added", added, "known findings for", pid)
